@@ -36,7 +36,7 @@ func (c12) Describe() engine.Info {
 			"interrupt request accepted at the overflow boundary or at the reload boundary (statement: no later than the reload); a cancelled overflow may or may not request",
 			"TLA+ model checking named in the quantifier is a different technique family and is not done",
 		},
-		RequiredProbes: []string{"tima_write_in_cycle_A", "tima_write_in_cycle_B", "tma_write_in_cycle_B", "div_write_signal_high", "tac_write_changes_level", "overflow"},
+		RequiredProbes: []string{"guest_program_runs", "tima_write_in_cycle_A", "tima_write_in_cycle_B", "tma_write_in_cycle_B", "div_write_signal_high", "tac_write_changes_level", "overflow"},
 		RealComponents: realComponents, StubComponents: stubComponents,
 		Sweeps: []string{"enumerated sequences of length<=3 over 13 operations from 40 start phases (class enum), sampled by index"},
 	}
@@ -94,6 +94,43 @@ func (c12) Generate(r *engine.Rand, index int, tier string) *engine.Scenario {
 			return
 		}
 		sc.Events = append(sc.Events, engine.Event{At: at, K: "bus_w", A: c12Addr(k), V: v, S: k})
+	}
+	if index%16 == 15 {
+		// the same kind of schedule, performed by a guest program on the real CPU instead of the
+		// scripted bus master: validates "a write at boundary b is the guest's write in cycle b+1"
+		sc.Class = "guest"
+		var code []byte
+		cyc := uint64(0)
+		n := r.Range(4, 60)
+		for i := 0; i < n; i++ {
+			for j, k := 0, r.Intn(7); j < k; j++ {
+				code = append(code, 0x00)
+				cyc++
+			}
+			var k string
+			var v uint8
+			switch op := r.Intn(10); {
+			case op < 2:
+				k, v = "div", r.Byte()
+			case op < 5:
+				k, v = "tima", uint8(0xfc+r.Intn(4))
+			case op < 7:
+				k, v = "tma", r.EdgeByte()
+			default:
+				k, v = "tac", r.Byte()&^3|1|4
+				if r.Chance(1, 3) {
+					v = r.Byte()
+				}
+			}
+			code = append(code, 0x3e, v, 0xe0, uint8(c12Addr(k)))
+			cyc += 2 + 3 // LD A,n ; LDH (n),A writes in its third cycle
+			at = cyc - 1
+			add(k, v)
+		}
+		code = append(code, 0x18, 0xfe)
+		sc.SetStr("prog", engine.Hex(code))
+		sc.Cycles = cyc + uint64(r.Range(4, 300))
+		return sc
 	}
 	switch index % 4 {
 	case 0, 1: // random schedule
@@ -246,7 +283,20 @@ func (c12) Execute(sc *engine.Scenario) *engine.Result {
 	if m == nil {
 		return res
 	}
-	m.Park()
+	guest := sc.Class == "guest"
+	if guest {
+		prog := engine.UnHex(sc.Str("prog"))
+		for i, b := range prog {
+			m.Write(0xc000+uint16(i), b)
+		}
+		rg := m.CPU.VerifGetRegs()
+		rg.PC, rg.SP = 0xc000, 0xdff0
+		m.CPU.VerifSetRegs(rg)
+		m.IRQ.Disable()
+		res.Probe("guest_program_runs")
+	} else {
+		m.Park()
+	}
 	var ref dmgref.Timer
 	start := uint16(0xabcc)
 	for _, e := range sc.Init {
@@ -403,7 +453,9 @@ func (c12) Execute(sc *engine.Scenario) *engine.Result {
 				res.Probe("write_edge_invisible_to_tick_sampling")
 			}
 		}
-		m.Write(ev.A, ev.V)
+		if !guest {
+			m.Write(ev.A, ev.V)
+		}
 		if sig || ph != "idle" {
 			res.Sig(fmt.Sprintf("%s/%s/edge=%v/sel=%d", ev.S, ph, ref.EdgeByWrite, ref.TAC&3))
 		}
